@@ -39,7 +39,7 @@ LEVEL = 'model_checking'
 RULE = ('LC: every distinct byte stream of <= K tokens over {a, e-acute, CR, LF, CRLF} x every composition into reads (see bounds), fed to a '
         'fresh Line under tick()-style flushing, + terminator probe; LS: every pair of (stream, composition) for two sockets '
         'with <= SEG segments in total x every interleaving; IR: Message(cmd, *args, prefix=p) and each constructor of '
-        'irc/commands.py x every argument tuple over the 12-string alphabet (arity bounds in `bounds`; also as bytes); IP: constructors x '
+        'irc/commands.py x every argument tuple over the 14-string alphabet (arity bounds in `bounds`; also as bytes); IP: constructors x '
         'benign arguments through two real IRC components x every single cut / byte-at-a-time. non-trivial: line case with '
         'a terminator and >= 2 reads; IRC case with at least one argument/prefix/command other than a plain word; '
         'distinct = distinct (family, input, segmentation)')
@@ -49,7 +49,7 @@ ASSUMPTIONS = [
     'a deliberate refusal is irc.message.Error / irc.utils.Error / ValueError; any other exception type is a crash',
     'round trip is judged on the Message\'s own public fields (command, prefix, args) through parsemsg/parseprefix, and '
     'through Message.from_string(line) (bytes, without the terminator) whose prefix is compared through parseprefix',
-    'argument alphabet: x, "", " ", "x y", ":x", "x:y", CR, aCRb, LF, aLFb, NUL, e-acute; given as str, and as utf-8 bytes '
+    'argument alphabet: x, "", " ", "x y", ":x", "x:y", CR, aCRb, LF, aLFb, xLF, xCR, NUL, e-acute; given as str, and as utf-8 bytes '
     'for Message("CMD", ...) up to arity 3',
     'driver = fire() + flush() until the queue is empty (documented application-specific main loop), horizon 50 passes',
 ]
@@ -317,7 +317,7 @@ CLIENT_K = {'quick': 5, 'thorough': 6}
 # ------------------------------------------------------------------------------------------------
 # IRC
 
-ARGS = ('x', '', ' ', 'x y', ':x', 'x:y', '\r', 'a\rb', '\n', 'a\nb', '\0', '\u00e9')
+ARGS = ('x', '', ' ', 'x y', ':x', 'x:y', '\r', 'a\rb', '\n', 'a\nb', 'x\n', 'x\r', '\0', '\u00e9')   # incl. a line end at the END of a value
 PREFIXES = ARGS + ('n!u@h',)
 PARSED_BACK = ('ok', 'from_string-raises', 'from_string-differs')   # parsemsg() gave the fields back
 REFUSALS = (irc_message.Error, irc_utils.Error, ValueError)
